@@ -355,6 +355,7 @@ func main() {
 		"A program is non-trivial when its trace has >=2 events and it executes >=1 jump-type construct (loop, switch, break/continue/goto); distinct by SHA-256 of the source. "+
 		"Focused programs (in addition; 2 of 5 are skeletons - one focused construct, no random statements around it - and run first so that a failure gives a short replay): (a) MiniGo programs built around 'deep jumps': a target (3-clause for / cond-only or infinite for / switch / goto label) around a nest of 0..6 scopes (blocks, if branches, inner loops, switch clauses; 4 of 5 declare variables) with a break / continue (labelled when an inner loop or switch is crossed) / backward goto in the innermost position, so that one jump leaves 0..9 runtime env frames (distribution keys construct:jump-frames:<kind>:<frames> = programs containing such a jump); they are Coq cases too (jumpOut's upn >= 4 included); "+
 		"(b) typed expression switches (differential only) over bool, every integer kind, floats, complex, string, rune, interface{}, arrays and structs, executed once for every value of a pool, whose case lists mix distinct constants with non-constant expressions (variables, calls that log their evaluation) drawn from the same pool - so a non-constant case often equals an earlier or a LATER constant case -, default anywhere, fallthrough, break/continue, tag also computed by a logging call or an init statement. "+
+		"(c) constant-condition control flow (differential only): if / else-if / else chains of 1..4 arms whose conditions are, per arm, a constant false / constant true expression (literal, !literal, named typed/untyped constants, comparisons of named constants or literals, &&/||/! over constants, len of constant strings/arrays) or a non-constant one, with and without init statements and a final else, and `for <constant>` loops; every arm emits its own marker (distribution keys construct:const-cond-if:<shape>, F/T/v = false/true/variable arm, i = init, e = else). "+
 		"Also generated (differential only): range with '=' into outer variables (slice/array/string, also through a closure), select (value, ok) receives from closed channels, go statements with array/struct arguments modified after the go statement. "+
 		"While a recorded defect (goto to a function-top-level label; range key used as loop counter; select send of an untyped constant; range-string '=' into an outer variable; select ok on a closed channel; go arguments not copied) is present on the tree its exact input is replayed first and the generators avoid that input class.")
 	wd := vh.NewWatchdog(rep, 180*time.Second)
@@ -410,6 +411,11 @@ func main() {
 		}
 		for i := nsmall; i < nfocus; i++ {
 			add(genProgram(rng.Fork(), 2+rng.Intn(3), true, avoid, "tswitch", false))
+		}
+		// (c) constant-condition if/else-if/else chains and for loops (constif.go), own random stream: skeletons, then full size
+		crng := vh.NewRng(a.Seed ^ 0xC05C0571F)
+		for i := 0; i < nfocus; i++ {
+			add(genProgram(crng.Fork(), 2+crng.Intn(3), true, avoid, "constif", i < nsmall))
 		}
 	}
 
